@@ -240,7 +240,8 @@ def region_H(kind, V):
     import os
     use = os.environ.get("C12_REGION_PARTS", "1234")
     parts = []
-    if "1" in use:
+    if "1" in use and kind == "hdd_tidd_cdd_smooth":
+        # the mechanism needs smoothing: for the unsmoothed full model the ordering swap commutes with everything else
         parts.append(crossed(kind, V))
     if "2" in use:
         for n in ("x_hdd_bp", "x_cdd_bp", "x_c_hdd_bp"):
